@@ -5,7 +5,7 @@
    that should receive Model.ml / Model.mli. *)
 Require Import ExtrOcamlBasic.
 From RV Require Import model.Base model.Clock model.Ledger model.Registry model.Chain model.Sync
-     model.Pool model.Interleave model.Json model.Sha256 model.Wire model.Neighborhood model.Wallet model.Views model.WireDec.
+     model.Pool model.Interleave model.Json model.Sha256 model.Wire model.Neighborhood model.Wallet model.Views model.WireDec model.Settings model.JsonParse.
 
 Extraction Language OCaml.
 Set Extraction Optimize.
@@ -23,4 +23,6 @@ Extraction "Model.ml"
   (* neighborhood *) network_id add_targets incentive known reachable outbounds_count select_outbounds fanout
                      admissible_outbounds sync_round
   (* access node *) find_closest tx_info wallet_amount progress_of
-  (* decoders *) unmarshal_tx unmarshal_block unmarshal_blocks unmarshal_request unmarshal_utxo unmarshal_output lower_hex.
+  (* decoders *) unmarshal_tx unmarshal_block unmarshal_blocks unmarshal_request unmarshal_utxo unmarshal_output lower_hex
+  (* settings *) decode_settings units_per_coin half_life_ns to_settings sane
+  (* bytes -> tree *) parse_json.
